@@ -81,11 +81,13 @@ impl Operator<'_> {
 
     fn push_sq(&self, entry: Entry) -> std::io::Result<()> {
         let entry = Box::leak(Box::new(entry));
-        if unsafe { self.inner.submission_shared().push(entry).is_err() } {
-            self.backlog
-                .lock()
-                .expect("backlog lock failed")
-                .push_back(entry);
+        {
+            // the submission queue has one producer side, but every thread that makes a hooked
+            // call pushes here (and the loop thread in `do_select`): the backlog lock serialises them
+            let mut backlog = self.backlog.lock().expect("backlog lock failed");
+            if unsafe { self.inner.submission_shared().push(entry).is_err() } {
+                backlog.push_back(entry);
+            }
         }
         match self.inner.submit() {
             Ok(_) => Ok(()),
@@ -139,6 +141,7 @@ impl Operator<'_> {
         cq.sync();
 
         // clean backlog
+        let mut backlog = self.backlog.lock().expect("backlog lock failed");
         let mut sq = unsafe { self.inner.submission_shared() };
         loop {
             if sq.is_full() {
@@ -154,7 +157,6 @@ impl Operator<'_> {
             }
             sq.sync();
 
-            let mut backlog = self.backlog.lock().expect("backlog lock failed");
             match backlog.pop_front() {
                 Some(sqe) => {
                     if unsafe { sq.push(sqe).is_err() } {
